@@ -326,6 +326,18 @@ async fn run_c19(rig: &mut Rig, id: u64, sc: &C19Scenario, cache: &mut WorldCach
     let ob = st.current_ds.offset_from_master.nanos().to_bits();
     if ob != 0 {
         rig.probe("offset_nonzero");
+        if sc.edits.is_empty() {
+            rig.probe("offset_nonzero_as_reached_in_simulation");
+            if ob.abs() > (1i128 << 63) {
+                rig.probe("offset_bits_exceed_64_as_reached_in_simulation");
+            }
+        }
+    }
+    if sc.edits.is_empty() && st.current_ds.steps_removed > 0 {
+        rig.probe("slave_or_boundary_state_as_reached_in_simulation");
+    }
+    if sc.edits.is_empty() && !st.path_trace_ds.list.is_empty() {
+        rig.probe("path_trace_nonempty_as_reached_in_simulation");
     }
     if ob > i64::MAX as i128 || ob < i64::MIN as i128 {
         rig.probe("offset_bits_exceed_64");
